@@ -213,7 +213,7 @@ def _evaluate_batch(check: Check):
       # guarded by `batch_mask is not None`
       from fjsa.flow import guards_of
       g = guards_of(ff, c)
-      g_ok = any(isinstance(t, ast.Compare) and isinstance(t.ops[0], ast.IsNot) and ff.param_of(t.left) == p_mask and pol for t, pol in g)
+      g_ok = any(isinstance(t, ast.Compare) and isinstance(t.ops[0], ast.Is) and ff.param_of(t.left) == p_mask and not pol for t, pol in g)
       ok_mask = part and t_ok and g_ok
       why = f'apply_mask(batch_mask, stat, metric.zero()): partial={part}, operands={t_ok}, on the mask arm={g_ok}'
     ok = ok_vm and ok_mask and len(ds) == 2
